@@ -1564,10 +1564,11 @@ func runForks(a *args, r *rand.Rand, env *sysEnv, seg uint64) {
 			if c, err := bstream.CursorFromOpaque(d.Cursor); err == nil {
 				rec.CurNum, rec.CurID = c.Block.Num(), c.Block.ID()
 			}
+			rec.cursor = d.Cursor
 			obs.Resp = append(obs.Resp, rec)
 		case *pbsubstreamsrpc.Response_BlockUndoSignal:
 			u := m.BlockUndoSignal
-			obs.Resp = append(obs.Resp, respRec{Kind: "undo", Num: u.LastValidBlock.Number, ID: u.LastValidBlock.Id, Payload: []int{}, Keys: []string{}})
+			obs.Resp = append(obs.Resp, respRec{Kind: "undo", Num: u.LastValidBlock.Number, ID: u.LastValidBlock.Id, Payload: []int{}, Keys: []string{}, cursor: u.LastValidCursor})
 		}
 		return nil
 	}
@@ -1589,6 +1590,176 @@ func runForks(a *args, r *rand.Rand, env *sysEnv, seg uint64) {
 		obs.Err = err.Error()
 	}
 	a.emitNT(map[string]any{"ev": "forkrun", "cfg": cfg, "base": base, "arrival": arrival, "steps": jsteps, "obs": obs}, len(steps) > 3)
+	if obs.Err != "" || obs.Panic != "" || cfg.Start > int64(base) {
+		return
+	}
+	for _, s := range jsteps {
+		if s.Step == "undo" && s.Junction == "" {
+			return // junction not observable (harness artefact, see TraceSystem)
+		}
+	}
+	forkResume(a, r, env, cfg, base, arrival, steps, jsteps, obs.Resp)
+}
+
+// forkResume: the client of the fork run reconnects with the cursor of a message it received - preferably one whose block
+// was orphaned afterwards. The cursor resolver (the firehose's job in production: locate the cursor's block on the current
+// chain) answers from the fork tree; the stream then serves the canonical chain as it stands at the end of the history.
+// The client model of TraceSystem.tla continues from what the client held at that message: an undo signal for the fork's
+// junction must come first when the block was orphaned, then the canonical blocks right after the junction (C12, C03).
+func forkResume(a *args, r *rand.Rand, env *sysEnv, cfg runCfg, base uint64, arrival []chainBlock, steps []genStep, jsteps []forkStep, first []respRec) {
+	// canonical chain of the forked part at the end of the history, and the parent links
+	var canon []forkStep
+	for _, s := range jsteps {
+		switch {
+		case s.Final:
+		case s.Step == "new" || s.Step == "newirr":
+			canon = append(canon, s)
+		case s.Step == "undo":
+			if n := len(canon); n > 0 && canon[n-1].ID == s.ID {
+				canon = canon[:n-1]
+			}
+		}
+	}
+	onCanon := map[string]bool{}
+	for _, c := range canon {
+		onCanon[c.ID] = true
+	}
+	parent := map[string]chainBlock{}
+	byID := map[string]chainBlock{}
+	for _, cb := range arrival {
+		byID[cb.ID] = cb
+	}
+	for _, cb := range arrival {
+		if p, ok := byID[cb.Parent]; ok {
+			parent[cb.ID] = p
+		} else {
+			parent[cb.ID] = chainBlock{Num: cb.Num - 1, ID: cb.Parent}
+		}
+	}
+	var orphans, others []int
+	for i, m := range first {
+		if m.cursor == "" || m.Num+1 < base {
+			continue
+		}
+		if m.Num >= base && !onCanon[m.ID] {
+			orphans = append(orphans, i)
+		} else {
+			others = append(others, i)
+		}
+	}
+	var picks []int
+	if len(orphans) > 0 {
+		picks = append(picks, orphans[r.Intn(len(orphans))])
+	}
+	if len(others) > 0 && (len(picks) == 0 || r.Intn(2) == 0) {
+		picks = append(picks, others[r.Intn(len(others))])
+	}
+	head := bstream.NewBlockRef(finalID(base-1), base-1)
+	if n := len(canon); n > 0 {
+		head = bstream.NewBlockRef(canon[n-1].ID, canon[n-1].Num)
+	}
+	libRef := bstream.NewBlockRef(finalID(base-1), base-1)
+	for _, k := range picks {
+		from := first[k]
+		if c, err := bstream.CursorFromOpaque(from.cursor); err == nil {
+			from.CurNum, from.CurID = c.Block.Num(), c.Block.ID()
+		}
+		obs := forkObs{Resp: []respRec{}, After: []map[string]any{}}
+		basest, err := dstore.NewStore(env.dir, "zst", "zstd", true)
+		if err != nil {
+			return
+		}
+		gate := &jobGate{workers: cfg.Workers}
+		wid := 0
+		rc := config.RuntimeConfig{SegmentSize: cfg.Seg, DefaultParallelSubrequests: uint64(cfg.Workers), BaseObjectStore: basest, DefaultCacheTag: "tag", MaxJobsAhead: 10,
+			WorkerFactory: func(*zap.Logger) work.Worker { wid++; return &gatedWorker{env: env, cfg: cfg, gate: gate, id: wid} }}
+		resolved := map[string]any{"called": false, "num": 0, "id": ""}
+		svc := service.TestNewService(rc, cfg.Lib, func(ctx context.Context, h bstream.Handler, st int64, stop uint64, _ string, _ bool, _ bool, _ *zap.Logger, _ ...bsstream.Option) (service.Streamable, error) {
+			return streamFunc(func(ctx context.Context) error {
+				for n := uint64(st); n < base; n++ {
+					blk := mkBlock(n, finalID(n), finalID(n-1), n)
+					ref := bstream.NewBlockRef(blk.Id, n)
+					obj := &stepObj{step: bstream.StepNewIrreversible, cursor: &bstream.Cursor{Step: bstream.StepNewIrreversible, Block: ref, LIB: ref, HeadBlock: ref}}
+					if err := h.ProcessBlock(blk, obj); err != nil {
+						return err
+					}
+				}
+				for _, c := range canon {
+					if c.Num < uint64(st) {
+						continue
+					}
+					cb := byID[c.ID]
+					ref := bstream.NewBlockRef(c.ID, c.Num)
+					obj := &stepObj{step: bstream.StepNew, cursor: &bstream.Cursor{Step: bstream.StepNew, Block: ref, LIB: libRef, HeadBlock: ref}}
+					if err := h.ProcessBlock(mkBlock(c.Num, c.ID, cb.Parent, base-1), obj); err != nil {
+						return err
+					}
+				}
+				return io.EOF
+			}), nil
+		})
+		svc.VerifSetCursorResolver(func(_ context.Context, cur *bstream.Cursor) (bstream.BlockRef, bstream.BlockRef, error) {
+			resolved["called"] = true
+			b := chainBlock{Num: cur.Block.Num(), ID: cur.Block.ID()}
+			if b.Num < base || onCanon[b.ID] {
+				return nil, head, nil // not forked: the source's first step is a new block (junctionBlockGetter leaves the junction nil)
+			}
+			for b.Num >= base && !onCanon[b.ID] {
+				p, ok := parent[b.ID]
+				if !ok {
+					return nil, nil, fmt.Errorf("cursor block %s is unknown", b.ID)
+				}
+				b = p
+			}
+			resolved["num"], resolved["id"] = b.Num, b.ID
+			return bstream.NewBlockRef(b.ID, b.Num), head, nil
+		})
+		req := &pbsubstreamsrpc.Request{StartBlockNum: cfg.Start, StartCursor: from.cursor, StopBlockNum: cfg.Stop, ProductionMode: cfg.Prod, OutputModule: "out", Modules: env.mods}
+		var mu sync.Mutex
+		collect := func(resp substreams.ResponseFromAnyTier) error {
+			rr, ok := resp.(*pbsubstreamsrpc.Response)
+			if !ok {
+				return nil
+			}
+			mu.Lock()
+			defer mu.Unlock()
+			switch m := rr.Message.(type) {
+			case *pbsubstreamsrpc.Response_BlockScopedData:
+				d := m.BlockScopedData
+				rec := respRec{Kind: "data", Num: d.Clock.Number, ID: d.Clock.Id, Payload: []int{}, Keys: []string{}, Final: d.FinalBlockHeight}
+				if d.Output != nil && d.Output.MapOutput != nil && len(d.Output.MapOutput.Value) > 0 {
+					v, err := strconv.ParseInt(string(d.Output.MapOutput.Value), 10, 64)
+					rec.Unparse = err != nil
+					rec.Payload = []int{int(v)}
+				}
+				if c, err := bstream.CursorFromOpaque(d.Cursor); err == nil {
+					rec.CurNum, rec.CurID = c.Block.Num(), c.Block.ID()
+				}
+				obs.Resp = append(obs.Resp, rec)
+			case *pbsubstreamsrpc.Response_BlockUndoSignal:
+				u := m.BlockUndoSignal
+				rec := respRec{Kind: "undo", Num: u.LastValidBlock.Number, ID: u.LastValidBlock.Id, Payload: []int{}, Keys: []string{}}
+				if c, err := bstream.CursorFromOpaque(u.LastValidCursor); err == nil {
+					rec.CurNum, rec.CurID = c.Block.Num(), c.Block.ID()
+				}
+				obs.Resp = append(obs.Resp, rec)
+			}
+			return nil
+		}
+		schedMu.Lock()
+		orchestrator.VerifOnScheduler = func(s *scheduler.Scheduler) { s.WorkerPool.VerifSkipRampup() }
+		scheduler.VerifTrace = nil
+		ctx := reqctx.WithTier2RequestParameters(context.Background(), reqctx.Tier2RequestParameters{BlockType: blockType, StateBundleSize: cfg.Seg, StateStoreURL: env.dir, StateStoreDefaultTag: "tag", MeteringConfig: "null://", MergedBlockStoreURL: "/tmp/verif-no-merged-blocks"})
+		ctx, cancel := context.WithTimeout(ctx, 30*time.Second)
+		obs.Panic = guard(func() { err = svc.TestBlocks(ctx, false, req, collect) })
+		cancel()
+		schedMu.Unlock()
+		if err != nil {
+			obs.Err = err.Error()
+		}
+		a.emitNT(map[string]any{"ev": "forkresume", "cfg": cfg, "base": base, "arrival": arrival, "steps": jsteps, "fromidx": k + 1,
+			"from": from, "before": first[:k+1], "resolved": resolved, "obs": obs}, len(obs.Resp) > 1)
+	}
 }
 
 type streamFunc func(ctx context.Context) error
